@@ -15,6 +15,10 @@ Case (driver "attacher"):
                                  sub-attacher per entry, added with that priority
    "prio_at_install": n          (optional) only the first n sub-attachers are added before the history starts,
                                  the others by p_add steps - n = 0 installs a still empty PriorityAttacher
+   "setconf_codes": [code, ..]   (optional) tor answers the k-th SETCONF __LeaveStreamsUnattached with
+                                 codes[k % len] (250, or a 5xx refusal: nothing changes in tor)
+   "hold_setconf": bool          (optional) the answers to those SETCONFs are under way until an s_ack step (FIFO);
+                                 every step that involves tor (events, tor acting) first lets all of them arrive
    "falsy":  [fa, fb]            (optional) attacher A / B is an object whose class defines 1: __len__ -> 0,
                                  2: __bool__ -> False (an "empty container" kind of attacher); 0: neither
    "steps":  [...]}
@@ -36,6 +40,7 @@ Case (driver "attacher"):
      ["x_set", a]            state.set_attacher(...): a%4 = 0 the installed one again, 1 a different one,
                              2 None (remove), 3 install the other one when the slot is empty
      ["t_attach", a, b]      tor carries out an attachment (as instructed, or its own choice when it may)
+     ["s_ack"]               the oldest SETCONF answer still under way arrives
      ["x_via", a]            once per case, while a user attacher is installed: circuit.stream_via(..).connect()
                              (the implicit second attacher must be refused: the connect fails, nothing is written)
      ["p_remove", i]         PriorityAttacher.remove_attacher(sub i//3) if i%3 == 0
@@ -92,7 +97,9 @@ RULE = ("Model-based, two generated families over the reference tor world (snaps
         "(class with __len__ -> 0 or __bool__ -> False) and the PriorityAttacher may be installed while still "
         "empty, its sub-attachers being added by later steps; from inside attach_stream() an attacher may remove "
         "itself (one-shot), try to install the other attacher (must be refused) or install itself again, and the "
-        "application may remove the attacher while late answers are outstanding. "
+        "application may remove the attacher while late answers are outstanding; tor may refuse the SETCONFs of "
+        "set_attacher (5xx) and their answers may arrive late (FIFO, as separate steps) with install / remove / "
+        "install sequences in between. "
         "'via': several concurrent Circuit.stream_via()/TorCircuitEndpoint connects over fake SOCKS connections "
         "with distinct local addresses (stages: TCP connect, method reply, tor announces the stream, SOCKS "
         "reply, end of the connection), interleaved with unrelated streams to the same target whose source differs "
@@ -131,6 +138,15 @@ ASSUMPTIONS = [
     "are not forbidden",
     "non-circuit answers are truthy objects (str, int, dict); an unknown circuit is a fresh Circuit object "
     "whose id the state does not list",
+    "tor may refuse SETCONF __LeaveStreamsUnattached (5xx) and its answers may arrive late, but in order and "
+    "before any later event. What is installed is decided by the set_attacher calls that returned normally. "
+    "The statement is silent on a refused install: when the refusal arrives while that same attacher object is "
+    "the installed one, both readings (it stays installed / it is rolled back) are accepted - streams announced "
+    "from then on are not judged and the only call made next is set_attacher(None), after which the model is "
+    "certain again. A refusal that arrives after its attacher was removed concerns nobody any more: the "
+    "successor (or the empty slot) must behave as if it had not happened. With refusals or late answers in a "
+    "case, set_attacher(same) and stream_via are not generated and the SETCONF lines are compared as one "
+    "sequence at the end (install -> 1, removal -> 0, nothing else)",
     "only None removes the attacher: an attacher object that happens to be falsy (defines __len__/__bool__) "
     "is installed like any other ('while a stream attacher is installed' - truthiness is not part of it); an "
     "empty PriorityAttacher has no preference (ATTACHSTREAM id 0) and asks sub-attachers added later",
@@ -196,7 +212,7 @@ def _steps(world_ops, own, min_size, max_size):
     return st.lists(st.one_of(*alts), min_size=min_size, max_size=max_size)
 
 
-OWN_A = {"n_new": (7, 4), "d_fire": (4, 2), "d_fresh": (2, 3), "x_set": (1, 1), "t_attach": (3, 2),
+OWN_A = {"n_new": (7, 4), "d_fire": (4, 2), "d_fresh": (2, 3), "s_ack": (2, 0), "x_set": (1, 1), "t_attach": (3, 2),
          "p_remove": (1, 1), "p_add": (2, 1), "x_via": (1, 1)}
 OWN_B = {"v_connect": (3, 3), "v_advance": (8, 1), "u_new": (4, 3), "t_attach": (4, 2), "x_set_other": (1, 0),
          "v_drop": (1, 1)}
@@ -221,9 +237,11 @@ def attacher_cases():
     steps = st.tuples(st.sampled_from([[["x_set", 3]], [["x_set", 3]], [["x_set", 3]], [["x_set", 7]], []]),
                       steps).map(lambda t: t[0] + t[1])
     return st.builds(
-        lambda m, big, pre, win, coro, prio, s, fal, npi: {
-            "modern": m, "big_ids": big, "pre": pre, "window": win, "coro": coro, "prio": prio, "steps": s,
-            "falsy": fal, "prio_at_install": min(npi, len(prio))},
+        lambda m, big, pre, win, coro, prio, s, fal, npi, faults: {
+            "modern": m, "big_ids": big, "pre": pre, "window": win, "coro": coro, "prio": prio,
+            "steps": (faults[2] + s) if (faults[0] or faults[1]) else s,
+            "falsy": fal, "prio_at_install": min(npi, len(prio)),
+            "setconf_codes": faults[0], "hold_setconf": faults[1]},
         st.booleans(), st.sampled_from([False, False, False, True]),
         _pre(24),
         st.one_of(st.just([]), st.just([]), torworld.steps(max_size=8, weights=WINDOW_WEIGHTS)),
@@ -231,7 +249,18 @@ def attacher_cases():
         st.one_of(st.just([]), st.just([]), st.lists(st.integers(0, 4), min_size=2, max_size=5)),
         steps,
         st.lists(st.sampled_from([0, 0, 0, 1, 2]), min_size=2, max_size=2),
-        st.sampled_from([9, 9, 0, 0, 1]))
+        st.sampled_from([9, 9, 0, 0, 1]),
+        st.one_of(
+            st.just(([], False, [])), st.just(([], False, [])),
+            st.tuples(st.one_of(st.just([]), st.lists(st.sampled_from([250, 250, 553, 552, 551]), min_size=1,
+                                                       max_size=5),
+                                st.lists(st.sampled_from([250, 553]), min_size=1, max_size=3).map(
+                                    lambda x: [553] + x)),
+                      st.sampled_from([True, True, True, False]),
+                      # install / remove / install ... while the answers are still under way
+                      st.lists(st.sampled_from([["x_set", 3], ["x_set", 7], ["x_set", 2], ["x_set", 2], ["x_set", 1],
+                                                ["s_ack"], ["n_new", 0, 0, 0, 0], ["n_new", 1, 2, 1, 0]]),
+                               max_size=9))))
 
 
 def via_cases():
@@ -272,6 +301,7 @@ class SRec(object):
         self.sub_answers = None
         self.losers = set()
         self.fresh = False              # the answer names a circuit that did not exist when the stream appeared
+        self.unjudged = False           # announced while it was uncertain whether an attacher is installed
         self.after_removal = False      # the answer was processed after the asked attacher had been removed
         self.inside = None              # what the attacher did to the slot from inside attach_stream
         self.reuses = None              # via: Conn whose (closed) local address this unrelated stream re-uses
@@ -329,6 +359,13 @@ class Run(object):
         self.step_no = -1
         self.unknown_n = 0
         self._keep = []                 # keeps answer objects alive (ids are used as keys)
+        self.faulty = False             # tor refuses SETCONFs and/or its answers are late
+        self.calls = []                 # set_attacher calls that must each have written one SETCONF: dicts
+        self.replies_seen = 0
+        self.uncertain = False          # a refused install hit the attacher that is still installed
+        self.stale_refusals = 0
+        self.install_gen = 0
+        self.current_gen = None
 
     # -- setup
     def boot(self):
@@ -356,6 +393,9 @@ class Run(object):
         self.state = self.sess.state
         self.pipe = self.sess.pipe
         self.n_boot = len(self.pipe.commands)
+        self.world.setconf_codes = list(case.get("setconf_codes") or [])
+        self.world.hold_setconf = bool(case.get("hold_setconf"))
+        self.faulty = self.world.hold_setconf or any(c != 250 for c in self.world.setconf_codes)
         self.reactor = FakeReactor()
         for m in self.world.streams.values():
             r = self.rec_of(m)
@@ -389,6 +429,47 @@ class Run(object):
         if self.pipe.escaped:
             self.res.bad("exception-escaped-dataReceived", "step %d: %r" % (self.step_no, self.pipe.escaped[0]))
             del self.pipe.escaped[:]
+        self.process_setconf_replies()
+
+    def process_setconf_replies(self):
+        """Follow the answers to the SETCONFs of set_attacher calls that have reached the controller by now."""
+        w = self.world
+        delivered = len(w.setconf_results) - len(w.held_setconf)
+        while self.replies_seen < delivered:
+            k = self.replies_seen
+            self.replies_seen += 1
+            code = w.setconf_results[k]
+            if k >= len(self.calls):
+                continue                    # a SETCONF no call accounts for: the sequence check reports it
+            call = self.calls[k]
+            if code == 250:
+                continue
+            if call["kind"] != "install":
+                self.res.label("setconf:removal-refused")
+                continue
+            if self.installed == call["name"]:
+                self.uncertain = True
+                self.res.label("setconf:refused-install-of-the-installed-attacher" + (
+                    "" if self.current_gen == call["gen"] else "/re-installed-meanwhile"))
+            else:
+                self.stale_refusals += 1
+                self.res.label("setconf:refused-install-of-a-removed-attacher" + (
+                    "/successor-installed" if self.installed is not None else ""))
+
+    def release_all_setconf(self):
+        guard = 0
+        while self.world.held_setconf and guard < 1000:
+            guard += 1
+            self.ack_setconf()
+
+    def ack_setconf(self):
+        from vlib import wire
+        reply = self.world.release_setconf()
+        if reply is None:
+            return False
+        self.pipe.inject(wire.encode_reply(reply))
+        self.settle()
+        return True
 
     def lines_of(self, sid):
         return [x for x in self.world.attach_log if x[1] == sid]
@@ -401,6 +482,7 @@ class Run(object):
             if rec.first_status is None and not rec.in_snapshot:
                 rec.first_status = rp.status
                 rec.installed = self.installed
+                rec.unjudged = self.uncertain
             if rp.status == "DETACHED":
                 rec.n_detached += 1
                 if rec.lines_at_first_detach is None:
@@ -417,7 +499,7 @@ class Run(object):
 
     def check_reported(self, before):
         """Invalid answers delivered since ``before`` must have produced a report by now."""
-        todo = [r for r in self.recs.values() if r.need_report and r.reported is None]
+        todo = [r for r in self.recs.values() if r.need_report and r.reported is None and not r.unjudged]
         if not todo:
             return
         if self.reports() == before:
@@ -427,7 +509,12 @@ class Run(object):
         got = self.reports() > before
         for r in todo:
             r.reported = got
-            if not got:
+            if not got and self.stale_refusals and not r.consults and not r.sub_consults:
+                self.res.bad("stale-install-refusal-disturbs-the-successor",
+                             "step %d: stream %d appeared with attacher %s installed but no attacher was asked; "
+                             "earlier tor had refused the install of an attacher that had already been removed when "
+                             "the refusal arrived" % (self.step_no, r.sid, r.installed))
+            elif not got:
                 self.res.bad("invalid-answer-not-reported/" + r.ans,
                              "step %d: the attacher's answer for stream %d was %s; nothing was sent (fine) but "
                              "neither twisted's log nor stdout/stderr got anything" % (self.step_no, r.sid, r.ans))
@@ -504,6 +591,8 @@ class Run(object):
         else:
             ok = {()}
             rec.need_report = True
+        if self.uncertain:
+            rec.unjudged = True
         if rec.m.gone is not None:
             ok = set(ok) | {()}
             rec.need_report = False
@@ -528,6 +617,9 @@ class Run(object):
         got = tuple(x[2] for x in lines)
         where = "stream %d (%s, first seen %s, attacher %s, answer %s)" % (
             rec.sid, rec.m.target, rec.first_status, rec.installed, rec.ans)
+        if rec.unjudged:
+            res.label("stream:not-judged/refused-install-of-the-installed-attacher")
+            return
         if rec.first_status is None:
             # known from the snapshot only: not a new stream
             if len(got) > rec.n_detached:
@@ -568,6 +660,11 @@ class Run(object):
                 res.bad("no-decision/host-merely-contains-.exit",
                         "%s: the attacher was not asked and nothing was sent; the host is not a .exit address" % where)
                 return
+            if n == 0 and self.stale_refusals:
+                res.bad("stale-install-refusal-disturbs-the-successor",
+                        "%s: the installed attacher was never asked; earlier tor had refused the install of an "
+                        "attacher that had already been removed when the refusal arrived" % where)
+                return
             if n == 0:
                 res.bad("attacher-not-consulted", "%s: the installed attacher was never asked" % where)
                 return
@@ -607,6 +704,10 @@ class Run(object):
             ans = ans[len("priority:"):]
         if len(got) > 1 and got[:1] in ok:
             res.bad("more-than-one-decision", text)
+        elif self.stale_refusals and got == () and not rec.consults and not rec.sub_consults \
+                and rec.installed != "internal":
+            res.bad("stale-install-refusal-disturbs-the-successor", text + " - no attacher was asked; earlier tor "
+                    "had refused the install of an attacher that had already been removed when the refusal arrived")
         elif near_exit and got == () and not rec.consults and not rec.sub_consults:
             res.bad("no-decision/host-merely-contains-.exit", text)
         elif rec.own_of is not None:
@@ -790,7 +891,7 @@ class AttacherRun(Run):
 
     def inside_action(self, name, rec, sel):
         """What the attacher does to the attacher slot from inside its attach_stream()."""
-        if sel < 6 or self.installed != name:
+        if sel < 6 or self.installed != name or (self.faulty and sel == 9):
             return
         other = {"A": "B", "B": "A"}[name]
         if sel in (6, 7):
@@ -800,6 +901,9 @@ class AttacherRun(Run):
             except Exception as e:
                 self.res.bad("set_attacher-raised", "set_attacher(None) from inside attach_stream: %r" % (e,))
             self.installed = None
+            self.uncertain = False
+            self.current_gen = None
+            self.calls.append({"kind": "remove", "name": None, "value": "0", "gen": None})
             self.expect_setconf.append("0")
             self.res.label("inside-attach_stream:removes-itself")
         elif sel == 8:
@@ -895,6 +999,13 @@ class AttacherRun(Run):
     def step(self, s):
         op = s[0]
         res = self.res
+        if op == "s_ack":
+            if self.ack_setconf():
+                res.label("setconf:late-answer-arrives")
+            return
+        if op not in ("x_set", "d_fire", "p_add", "p_remove") and self.world.held_setconf:
+            # tor's answers precede everything tor says or does later
+            self.release_all_setconf()
         if op in WORLD_OPS_A:
             self.world_step(s)
         elif op == "n_new":
@@ -1028,7 +1139,7 @@ class AttacherRun(Run):
 
     def x_via(self, a):
         """The other API while a user attacher is installed: the implicit second attacher must be refused."""
-        if self.installed is None or self.via_tried:
+        if self.installed is None or self.via_tried or self.faulty:
             return
         w = self.world
         cand = [w.circuits[k] for k in sorted(w.circuits) if w.circuits[k].inc in self.obj_of]
@@ -1072,12 +1183,45 @@ class AttacherRun(Run):
             want, action = None, "remove"
         else:
             want, action = other[self.installed], "second"
+        if self.installed is not None and (self.uncertain or (self.faulty and action == "same")):
+            want, action = None, "remove"
         n0 = len(self.world.setconf_log)
         raised = None
+        if action == "second" and self.stale_refusals:
+            tag_second = "stale-install-refusal-disturbs-the-successor"
+        else:
+            tag_second = "second-attacher-accepted"
         try:
-            self.state.set_attacher(self.attachers[want] if want else None, self.reactor)
+            d = self.state.set_attacher(self.attachers[want] if want else None, self.reactor)
+            if d is not None:
+                Watch(d)
         except RuntimeError as e:
             raised = e
+        if raised is None and action in ("install", "remove"):
+            call = {"kind": action, "name": want, "value": "1" if action == "install" else "0", "gen": None}
+            if action == "install":
+                self.install_gen += 1
+                call["gen"] = self.current_gen = self.install_gen
+            else:
+                self.current_gen = None
+            self.calls.append(call)
+        if self.faulty:
+            res.label("set_attacher:" + action + ("/answers-outstanding" if self.world.held_setconf else ""))
+            if action == "second":
+                if raised is None:
+                    res.bad(tag_second, "step %d set_attacher(%s) with %s installed: no RuntimeError" % (
+                        self.step_no, want, self.installed))
+                    self.installed = want
+            elif raised is not None:
+                res.bad("set_attacher-raised", "step %d set_attacher(%s) with %s installed: %r" % (
+                    self.step_no, want, self.installed, raised))
+            elif action == "install":
+                self.installed = want
+            else:
+                self.installed = None
+                self.uncertain = False
+            self.settle()
+            return
         self.settle()
         new = self.world.setconf_log[n0:]
         vals = []
@@ -1094,7 +1238,7 @@ class AttacherRun(Run):
         where = "step %d set_attacher(%s) with %s installed" % (self.step_no, want, self.installed)
         if action == "second":
             if raised is None:
-                res.bad("second-attacher-accepted", "%s: no RuntimeError" % where)
+                res.bad(tag_second, "%s: no RuntimeError" % where)
                 # follow what the code did so that one defect is reported once
                 self.installed = want
             if "0" in vals:
@@ -1146,7 +1290,7 @@ class AttacherRun(Run):
             self.expect_setconf = []
             self.expect_setconf_optional = []
             self.step(s)
-            if s[0] not in ("x_set", "x_via"):
+            if s[0] not in ("x_set", "x_via") and not self.faulty:
                 vals = []
                 for line, pairs in self.world.setconf_log[n_before:]:
                     vals.extend(v if k.lower() == "__leavestreamsunattached" else "?" + line
@@ -1162,6 +1306,19 @@ class AttacherRun(Run):
                         i, s, [x[0] for x in self.world.setconf_log[n_before:]], self.expect_setconf))
         if not self.res.ok:
             return
+        self.step_no = len(self.case["steps"])
+        self.release_all_setconf()
+        if self.faulty:
+            got = []
+            for line, pairs in self.world.setconf_log:
+                got.extend(v if k.lower() == "__leavestreamsunattached" else "?" + line
+                           for k, v in (pairs or [("?", None)]))
+            want = [c["value"] for c in self.calls]
+            if got != want:
+                self.res.bad("setconf-sequence-differs-from-the-calls",
+                             "SETCONF __LeaveStreamsUnattached values written %r; the set_attacher calls that "
+                             "returned normally require %r" % (got, want))
+                return
         self.finish()
 
 
@@ -1697,6 +1854,10 @@ MUTANTS = [
     ("via-entry-looked-up-but-never-removed", "txtorcon/circuit.py",
      "        try:\n            circuit, d = self._circuit_targets.pop(k)\n        except KeyError:\n            return\n",
      "        try:\n            circuit, d = self._circuit_targets[k]\n        except KeyError:\n            return\n"),
+    ("refused-install-rolls-back-whatever-is-installed-by-then", "txtorcon/torstate.py",
+     '            d = self.protocol.set_conf("__LeaveStreamsUnattached", "1")\n',
+     '            d = self.protocol.set_conf("__LeaveStreamsUnattached", "1")\n'
+     "            d.addErrback(lambda f: (setattr(self, '_attacher', None), f)[1])\n"),
     ("attachstream-names-the-wrong-stream", "txtorcon/torstate.py",
      '                    u"ATTACHSTREAM {} {}".format(stream.id, circ.id).encode("ascii")',
      '                    u"ATTACHSTREAM {} {}".format(circ.id, stream.id).encode("ascii")'),
